@@ -99,6 +99,34 @@ Theorem C08_blocker_is_higher : forall (T : Type) (held : T -> list String.strin
   forall t u, blocked_by T held waits t u -> waits u = None \/ (wrank T waits t < wrank T waits u)%nat.
 Proof. exact blocker_is_higher. Qed.
 
+(* ---- lock discipline: which mutex guards which field ----
+   Gen/LockOrder.v also lists every access to a field of the package's struct types with the mutexes certainly held
+   there (what a function holds on entry = what all its call sites hold).  Cache/LockOrder.v states the discipline
+   (guards: the shard map under the shard lock, the expiry buckets under the expiry-index lock, the accounting, the
+   sketch and the doorkeeper under the policy mutex, the life-expectancy histogram under Metrics.mu); every access of
+   the current source obeys it: writes - and reads of fields whose contents are written through them - hold the guard
+   exclusively, reads hold it at least shared, no guarded field is touched through sync/atomic. *)
+Theorem C08_lock_discipline : forallb access_ok lock_accesses = true.
+Proof. exact discipline_ok_now. Qed.
+
+(* Hence no data race on a guarded field at the level of the lock discipline: if two different goroutines (neither
+   inside a constructor) are both inside an access to the same guarded field, and mutexes exclude as sync.Mutex /
+   RWMutex do, then both accesses are reads. *)
+Theorem C08_no_conflicting_access : forall (T : Type) (holding : T -> list (String.string * bool)),
+  (forall t u g m, t <> u -> In (g, true) (holding t) -> In (g, m) (holding u) -> False) ->
+  forall t u field k1 f1 k2 f2 g strict, t <> u ->
+  guard_of field = Some (g, strict) ->
+  existsb (String.eqb f1) constructors = false -> existsb (String.eqb f2) constructors = false ->
+  performs T holding t field k1 f1 -> performs T holding u field k2 f2 ->
+  needs_exclusive field k1 f1 strict = false /\ needs_exclusive field k2 f2 strict = false.
+Proof. exact no_conflicting_access. Qed.
+
+(* non-vacuity: the table constrains at least 60 accesses of the current source, and every guarded field occurs *)
+Example C08_lock_discipline_nonvacuous :
+  (60 <= List.length guarded_accesses)%nat /\
+  forallb (fun g => existsb (fun a => String.eqb (fst (fst (fst a))) (fst (fst g))) guarded_accesses) guards = true.
+Proof. exact discipline_nonvacuous. Qed.
+
 (* non-vacuity: the shard -> expiry-index nesting is there, with the functions it comes from *)
 Example C08_lock_order_nonvacuous : exists f, In (shard_class, expiry_class, f) lock_edges.
 Proof. eexists. vm_compute. left. reflexivity. Qed.
